@@ -93,6 +93,10 @@ class C12(E1Check):
         # the database path is a symbolic link (a "write through the link" special case would not be atomic)
         cfgs.append({"name": "csv/auto/symlinked-path", "storage": "csv", "auto_index": True, "symlink": True,
                      "D": 3 if self.tier == "quick" else 4})
+        # a database created with access_mode "w+" in the same session: the rewrite of update / remove must be as
+        # atomic as in "r+" (a rewrite through the open handle - truncate, then write - is not)
+        cfgs.append({"name": "csv/auto/mode=w+", "storage": "csv", "auto_index": True, "csv": {"access_mode": "w+"},
+                     "D": 3 if self.tier == "quick" else 4})
         # a run of twelve single appends with nothing in between (a grouped / deferred commit would show here)
         run = tuple(("insert", "G%d" % i, None, False, "db") for i in range(12))
         cfgs.append({"name": "csv/auto/after-12-appends", "storage": "csv", "auto_index": True, "N": 20, "D": 2, "init": run})
@@ -112,7 +116,10 @@ class C12(E1Check):
         SEAM.install()
 
     def op_list(self, cfg):
-        return crash_ops(self.alpha, self.tier)
+        ops = crash_ops(self.alpha, self.tier)
+        if cfg.get("csv", {}).get("access_mode") == "w+":
+            ops = [o for o in ops if o[0] != "reopen"]  # opening with w+ truncates by definition
+        return ops
 
     def ladder_op_list(self, cfg):
         return [o for o in ladder.ops(self.alpha, cfg) if o[0] != "read_storm" and not (o[0] == "insert_multiple")]
